@@ -40,6 +40,7 @@ var gSources = map[string]string{
 	`a$1b`:      "a$1b\n",
 	`(?i)[ab]`:  "##!+ i\na|b\n",
 	`x y`:       "x y\n",
+	`ab `:       "ab[ ]\n",
 }
 
 const rulesFileName = "rules/REQUEST-932-APPLICATION-ATTACK-RCE.conf"
@@ -129,7 +130,7 @@ func checkRules(c *Ctx, roundTrip bool) error {
 	c.Cov["recorded_target_lines_validated"] = atomic.LoadInt64(&updTraces)
 	c.Cov["exhaustive"] = keepMod == 1
 	if roundTrip {
-		c.Cov["rule"] = fmt.Sprintf("rules files of <= %d items over the 16-item vocabulary of MC_Rules x targets (7 ids x chain 0..3) x one regex of the hazard pool per target; history compare / update / compare / update / generate / edit one operand byte / compare (text and github mode) on the real binary, each step compared with the spec; non-trivial = update succeeds and the regex contains a quote, $, blank or backslash", items)
+		c.Cov["rule"] = fmt.Sprintf("rules files of <= %d items over the 16-item vocabulary of MC_Rules x targets (7 ids x chain 0..3) x one regex of the hazard pool (8 regexes, one ending in a blank) per target; history compare / update / compare / update / generate / edit one operand byte / compare (text and github mode) / append one blank to the operand / compare / update --all / compare --all on the real binary, each step compared with the spec; non-trivial = update succeeds and the regex contains a quote, $, blank or backslash", items)
 	} else {
 		c.Cov["rule"] = fmt.Sprintf("rules files of <= %d items over the 16-item vocabulary of MC_Rules x targets (7 ids x chain 0..3) x one regex of the hazard pool per target; after `regex update` the whole tree is compared with the spec: rules file bytes = Bytes(Update(..)), nothing else changed, failures leave everything untouched; non-trivial = file has >= 2 rules or the target is a chained link", items)
 	}
@@ -282,6 +283,13 @@ func rulesReplay(c *Ctx, name string, rc *RulesCase, roundTrip bool, cli *int64)
 		if s, _ := snapshot(root); len(diffTrees(edited, s)) > 0 {
 			bad("compare wrote to the tree", map[string]any{"diff": diffTrees(edited, s)})
 		}
+		// one byte MORE: a blank appended to the stored operand
+		os.WriteFile(root+"/"+rulesFileName, []byte(rc.After[:rc.Off+len(rc.Regex)]+" "+rc.After[rc.Off+len(rc.Regex):]), 0o644)
+		r5b := run("regex", "compare", arg)
+		if r5b.Exit == 0 || !strings.Contains(r5b.Stdout, "has changed") {
+			bad(fmt.Sprintf("the stored operand has one blank more at its end but compare says exit=%d %q", r5b.Exit, firstLine(r5b.Stdout)), nil)
+		}
+		os.WriteFile(root+"/"+rulesFileName, b, 0o644)
 		// the same round trip through the --all forms (Toolchain!UpdateAll is the fold of Update):
 		// update --all repairs the edited operand, compare --all then reports nothing
 		r8 := run("regex", "update", "--all")
